@@ -133,7 +133,8 @@ class C06(Property):
                                  (2, "pow"), (2, "addc"), (2, "dupscale"),
                                  (1, "copyadd"), (1, "copymul"),
                                  (2, "zeronum"), (2, "cascade"),
-                                 (1, "parallel"), (2, "divterm")])
+                                 (1, "parallel"), (2, "divterm"),
+                                 (2, "sharedhub")])
     if shape == "zeronum":
       # free response: empty numerator, feedback only (needs a delay term)
       tree = single()
@@ -165,6 +166,20 @@ class C06(Property):
       a = single()
       a["num"], a["den"] = a["num"][:2], a["den"][:2]
       tree = {"op": shape, "a": a}
+    elif shape == "sharedhub":
+      # the user shares ONE stream between numerator and denominator (and
+      # possibly twice in the numerator) through thub(stream, n)
+      tree = single()
+      tree["route"] = W.pick("hroute", ["expr", "lists"])
+      ctr[0] += 1
+      hub = ["h", ctr[0]]
+      tree["num"][0] = [tree["num"][0][0], hub]
+      if len(tree["den"]) < 2:
+        tree["den"].append([1, hub])
+      else:
+        tree["den"][-1] = [tree["den"][-1][0], hub]
+      if len(tree["num"]) > 1 and W.chance("third-use", 1, 2):
+        tree["num"][-1] = [tree["num"][-1][0], hub]
     elif shape in ("cascade", "parallel"):
       tree = {"op": shape, "a": single(), "b": single()}
     elif shape == "divterm":
@@ -303,6 +318,9 @@ class C06(Property):
       {"tree": {"op": "copymul",
                 "a": single([[0, S(1)], [1, C(2)]], [[0, C(1)], [1, S(2)]])},
        "lens": {"1": None, "2": None}, "xlen": 8, "cstream": 0},
+      {"tree": single([[0, ["h", 1]], [1, C(2)], [2, ["h", 1]]],
+                      [[0, C(1)], [1, ["h", 1]]]),
+       "lens": {"1": 9}, "xlen": None, "cstream": 0},
       {"tree": {"op": "cascade", "a": single([[1, S(1)]]),
                 "b": single([[1, S(2)], [2, C(1)]])},
        "lens": {"1": None, "2": 9}, "xlen": None, "cstream": 0},
@@ -335,8 +353,26 @@ class C06(Property):
     """ Returns the real filter for ``tree`` over the given SimSources. """
     Stream, z, ZFilter = self.ls.Stream, self.lf.z, self.lf.ZFilter
     flip = [cstream]
+    hubs = {}
+    uses = {}
+
+    def count_uses(t):
+      if isinstance(t, dict):
+        for v in t.values():
+          count_uses(v)
+      elif isinstance(t, list):
+        if len(t) == 2 and t[0] == "h":
+          uses[t[1]] = uses.get(t[1], 0) + 1
+        else:
+          for v in t:
+            count_uses(v)
+    count_uses(tree)
 
     def cval(c):
+      if c[0] == "h":
+        if c[1] not in hubs:
+          hubs[c[1]] = self.ls.thub(Stream(sources[c[1]]), uses[c[1]])
+        return hubs[c[1]]
       if c[0] == "s":
         return Stream(sources[c[1]])
       if c[0] == "r":
@@ -416,7 +452,7 @@ class C06(Property):
   def spec_polys(self, t, n):
     """ (num, den) of a tree at sample n straight from the specification. """
     def cv(c):
-      return src_value(c[1], n) if c[0] == "s" else Fraction(c[1])
+      return src_value(c[1], n) if c[0] in ("s", "h") else Fraction(c[1])
     # (a finite constant stream ["r", value, times] has its constant value
     # for as long as it lasts; its length enters the output length)
     op = t["op"]
@@ -484,8 +520,8 @@ class C06(Property):
       if t["op"] == "single":
         for part in ("num", "den"):
           for k, c in t[part]:
-            if c[0] == "s" and not (t["route"] == "quot" and part == "den"
-                                    and k == 0):
+            if c[0] in ("s", "h") and c[1] not in out and \
+               not (t["route"] == "quot" and part == "den" and k == 0):
               out.append(c[1])
       else:
         if "c" in t and t["c"][0] == "s":
@@ -585,6 +621,8 @@ class C06(Property):
       Stream = self.ls.Stream
 
       def seq_of(coeff):
+        if isinstance(coeff, self.ls.StreamTeeHub):
+          coeff = Stream(coeff)          # one use of the hub, as the call
         if isinstance(coeff, Stream):
           return list(coeff.take(horizon + 2)), True
         return coeff, False
